@@ -58,6 +58,13 @@ class FnContract:
     exc_any_ok: bool = False               # `raises` lists are not exhaustive (used for assumed externals)
     may_raise_any: bool = False            # assumed external: may raise any Exception (EXC-ANY) besides `raises`
     exc_ensures: list = field(default_factory=list)  # [(label, fn(ctx) -> Bool)]: postconditions of every *exceptional* outcome (ctx.exc set)
+    # --- nested functions (closures) under their own contract -----------------------------------
+    closure: list = field(default_factory=list)   # [(name, maker)] free variables of the enclosing function the
+                                                  # nested function reads/writes; ctx.args[name] = value at entry,
+                                                  # ctx.closure(name) = value at exit
+    closure_modifies: tuple = ()           # closure variables the function may rebind (`nonlocal`): havocked at calls
+    decreases: Optional[Callable] = None   # decreases(ctx) -> Int term: measure; every recursive call must lower it
+    total: bool = False                    # emit the `raises` obligation even when no exceptional path exists
 
 
 class Registry:
